@@ -33,7 +33,7 @@ OnlyTrailingNewlines == done => (Len(Out1) > 0 /\ Out1[1] # "N" => Len(TrimNL(Ou
 Idempotent == done => TrimNL(TrimNL(o1)) = TrimNL(o1)
 OutsQ == { <<"x">>, <<>>, <<"x","N","N">>, <<"a","$","1","b">>, <<"$","{","x","}">>, <<"$","n","a","m","e">>, <<"a","\\","b">>,
            <<"a"," ","b">>, <<"{","a",",","b","}">>, <<"*">> }
-OutsT == OutsQ \cup { <<" ","l">>, <<"t"," ","N">>, <<"x","N","y","N">>, <<"$","0">>, <<"\\","1">>, <<"$","$">>, <<"(",")">>, <<"&">>, <<"'">>, <<"\"">> }
+OutsT == OutsQ \cup { <<" ","l">>, <<"t"," ","N">>, <<"x","N","y","N">>, <<"$","0">>, <<"\\","1">>, <<"$","$">>, <<"(",")">>, <<"&">>, <<"'">>, <<"\"">>, <<"'","q","'">> }
 KQ == {"simple", "pipeline", "failing", "notfound", "invalid", "builtin"}
 CQ == {"unq", "dq", "assign", "here"}
 =============================================================================
